@@ -9,6 +9,9 @@ KINDS = {
     'C02': {'reply', 'abs'},
     'C04': {'wf'},
     'C05': {'alloc', 'wf'},
+    'C06': {'trace', 'panic'},
+    'C01': {'trace'},
+    'C07': {'trace'},
     'C08': {'reply'},
     'C09': {'abs', 'alloc', 'wf', 'reply', 'cache'},
     'C10': {'abs', 'alloc', 'reply', 'cache'},
@@ -74,7 +77,7 @@ def run_profile(ctx, prop, profile, nseq, nops, size, kinds=None, seed_off=0, sh
         findings = vlib.load_findings()
         i = None
         for j, s_ in enumerate(steps):
-            if s_['panic'] or not s_['reply'] or s_['nabs'] or s_['nwf'] or not s_['alloc']:
+            if s_['panic'] or not s_['reply'] or s_['nabs'] or s_['nwf'] or not s_['alloc'] or not s_.get('trace', 1):
                 k_, p_, d_ = signature(s_)
                 kf = vlib.match_finding(Failure(prop, k_, p_, d_), findings)
                 benign = not s_['panic'] and s_['reply'] and s_['nabs'] == 0 and s_['nwf'] == 0
